@@ -378,7 +378,7 @@ class Dependency(PackageSpecification):
                         f"Directory {name!r} is not installable. Not a Python project."
                     )
                 link = Link(path_to_url(p))
-            elif is_archive_file(p):
+            elif is_archive_file(p) and p.is_file():
                 link = Link(path_to_url(p))
 
         # it's a local file, dir, or url
@@ -427,7 +427,7 @@ class Dependency(PackageSpecification):
                 )
             elif is_file_uri:
                 # handle RFC 8089 references
-                path = url_to_path(req.url)
+                path = url_to_path(req.url or link.url)
                 dep = _make_file_or_dir_dep(
                     name=name,
                     path=path,
